@@ -323,6 +323,14 @@ class MailboxData(MailboxDataInterface[Message]):
                     rec.key, dest_maildir, dest_subdir)
             except (KeyError, FileNotFoundError):
                 return None
+        if not same:
+            # the file has left this maildir and keeps its name: forget its
+            # record, or moving it back would revive the expunged UID
+            async with UidList.with_write(self._path) as uidl:
+                try:
+                    uidl.remove(uid)
+                except KeyError:
+                    pass
         async with UidList.with_write(destination._path) as uidl:
             if same:
                 # the file stays in this maildir, only its UID changes
